@@ -127,6 +127,18 @@ func streamAddr(c *ctx) {
 		}
 	}
 	rec([]byte{})
+	// four digit groups that are NOT a dotted quad: the dots replaced by another separator, alone and inside
+	// IPv6-looking text (a gate that forgot to escape its dots would let netip see these)
+	for _, sep := range []string{":", "x", "-", ",", " ", "/", "_"} {
+		for _, q := range [][4]int{{1, 2, 3, 4}, {192, 168, 1, 100}, {10, 0, 0, 1}, {255, 255, 255, 255}} {
+			core := fmt.Sprintf("%d%s%d%s%d%s%d", q[0], sep, q[1], sep, q[2], sep, q[3])
+			for _, s := range []string{core, core + "::", "::" + core, core + "::%eth0", "[" + core + ":5:6:7:8]:12345", core + ":60001", "::ffff:" + core} {
+				for _, role := range addrRoles {
+					emitParse(role, s, "parse/quad-with-other-separator")
+				}
+			}
+		}
+	}
 	// mutations of valid addresses
 	junk := []string{"", " ", "x", "::ffff:", "[", "]", "%eth0", "a.b.c.d", "256", "01", "-1", "65536", "060000", "0x10", ".", ":", "1.2.3", "1.2.3.4.5"}
 	for i := 0; i < 6000*c.scale; i++ {
